@@ -17,6 +17,9 @@ class Inconclusive(AnalysisError):
     """construct outside the rational fragment"""
 
 
+BUDGET = [40_000_000]
+
+
 class Poly:
     __slots__ = ('d',)
 
@@ -57,8 +60,11 @@ class Poly:
                         m[a] = m.get(a, 0) + e
                     k = tuple(sorted((a, e) for a, e in m.items() if e))
                 d[k] = d.get(k, 0) + v1 * v2
-        if len(d) > 200000:
+        if len(d) > 60000:
             raise Inconclusive('polynomial too large')
+        BUDGET[0] -= len(self.d) * len(o.d)
+        if BUDGET[0] < 0:
+            raise Inconclusive('term budget exhausted')
         return Poly(d)
 
     def __pow__(self, n):
@@ -144,12 +150,23 @@ class Rat:
     def __add__(self, o):
         if self.d == o.d:
             return Rat(self.n + o.n, self.d)
+        if len(self.d.d) == 1 and len(o.d.d) == 1:
+            # monomial denominators: use their lcm (keeps forms small)
+            (k1, c1), = self.d.d.items()
+            (k2, c2), = o.d.d.items()
+            m1, m2 = dict(k1), dict(k2)
+            l = {a: max(m1.get(a, 0), m2.get(a, 0)) for a in set(m1) | set(m2)}
+            f1 = tuple(sorted((a, e - m1.get(a, 0)) for a, e in l.items()
+                              if e - m1.get(a, 0)))
+            f2 = tuple(sorted((a, e - m2.get(a, 0)) for a, e in l.items()
+                              if e - m2.get(a, 0)))
+            lk = tuple(sorted(l.items()))
+            n = self.n * Poly({f1: c2}) + o.n * Poly({f2: c1})
+            return Rat(n, Poly({lk: c1 * c2}))
         return Rat(self.n * o.d + o.n * self.d, self.d * o.d)
 
     def __sub__(self, o):
-        if self.d == o.d:
-            return Rat(self.n - o.n, self.d)
-        return Rat(self.n * o.d - o.n * self.d, self.d * o.d)
+        return self + (-o)
 
     def __mul__(self, o):
         return Rat(self.n * o.n, self.d * o.d)
@@ -361,6 +378,8 @@ class Sym:
                 s = [x for x, (k, y) in self.defs.items()
                      if k == 'sin' and (y is arg or rat_eq(y, arg))]
                 da = -Rat.atom(s[0]) * darg
+            elif kind == 'acos':
+                da = -darg / self.sqrt(ONE - arg * arg)
             else:
                 raise Inconclusive(f'derivative through {kind}')
             total = total + r.diff(a) * da
@@ -459,7 +478,20 @@ class Ev:
             elif isinstance(e.value, (ast.Tuple, ast.List)):
                 base = self.ev(e.value)
             if isinstance(base, (tuple, list)):
-                c = const_of(e.slice)
+                sl = e.slice
+                if isinstance(sl, ast.Tuple) and len(sl.elts) == 2 and \
+                        isinstance(sl.elts[0], ast.Slice):
+                    sl = sl.elts[1]
+                    if isinstance(sl, ast.Constant) and sl.value is None:
+                        return base
+                c = const_of(sl)
+                if c is None:
+                    try:
+                        r = self.ev(sl)
+                        if isinstance(r, Rat) and r.is_const():
+                            c = r.n.constant() / r.d.constant()
+                    except Inconclusive:
+                        c = None
                 if c is not None and c.denominator == 1 and \
                         -len(base) <= int(c) < len(base):
                     return base[int(c)]
@@ -496,17 +528,7 @@ class Ev:
                 return self.sym.opaque('pow', (base, ex))
             a = self.ev(e.left)
             b = self.ev(e.right)
-            if isinstance(a, (tuple, list)) or isinstance(b, (tuple, list)):
-                raise Inconclusive('arithmetic on tuple ' + unparse(e))
-            if isinstance(e.op, ast.Add):
-                return a + b
-            if isinstance(e.op, ast.Sub):
-                return a - b
-            if isinstance(e.op, (ast.Mult, ast.MatMult)):
-                return a * b
-            if isinstance(e.op, ast.Div):
-                return a / b
-            raise Inconclusive(unparse(e))
+            return self.arith(e.op, a, b, e)
         if isinstance(e, (ast.Tuple, ast.List)):
             return tuple(self.ev(x) for x in e.elts)
         if isinstance(e, ast.Call):
@@ -521,6 +543,25 @@ class Ev:
 
     def elem(self, base, ik, node):
         return base
+
+    def arith(self, op, a, b, node=None):
+        if isinstance(a, (tuple, list)) or isinstance(b, (tuple, list)):
+            if isinstance(a, (tuple, list)) and isinstance(b, (tuple, list)):
+                if len(a) != len(b):
+                    raise Inconclusive('vector length mismatch')
+                return tuple(self.arith(op, x, y, node) for x, y in zip(a, b))
+            if isinstance(a, (tuple, list)):
+                return tuple(self.arith(op, x, b, node) for x in a)
+            return tuple(self.arith(op, a, y, node) for y in b)
+        if isinstance(op, ast.Add):
+            return a + b
+        if isinstance(op, ast.Sub):
+            return a - b
+        if isinstance(op, (ast.Mult, ast.MatMult)):
+            return a * b
+        if isinstance(op, ast.Div):
+            return a / b
+        raise Inconclusive('operator ' + type(op).__name__)
 
     def read(self, key):
         if key in self.heap:
@@ -559,6 +600,14 @@ class Ev:
                 return ZERO
             if name in ('full_like', 'full') and len(e.args) >= 2:
                 return self.ev(e.args[1])
+            if name == 'arccos' and e.args:
+                a = self.ev(e.args[0])
+                at = self.sym.fn_atom('acos', a)
+                return Rat.atom(at)
+            if name in ('column_stack', 'stack', 'vstack', 'hstack') and e.args:
+                v = self.ev(e.args[0])
+                if isinstance(v, tuple):
+                    return v
             if name == 'square' and e.args:
                 a = self.ev(e.args[0])
                 return a * a
@@ -630,17 +679,7 @@ class Ev:
         if isinstance(s, ast.AugAssign):
             cur = self.ev(s.target)
             v = self.ev(s.value)
-            op = s.op
-            if isinstance(op, ast.Add):
-                r = cur + v
-            elif isinstance(op, ast.Sub):
-                r = cur - v
-            elif isinstance(op, ast.Mult):
-                r = cur * v
-            elif isinstance(op, ast.Div):
-                r = cur / v
-            else:
-                raise Inconclusive(unparse(s))
+            r = self.arith(s.op, cur, v, s)
             self.assign(s.target, r)
             return False
         if isinstance(s, ast.Expr):
@@ -659,22 +698,90 @@ class Ev:
             return True
         if isinstance(s, ast.If):
             c = self.choose(s.test, self) if self.choose else None
+            if c is None and not s.orelse and all(
+                    isinstance(b, ast.Raise) for b in s.body):
+                return False        # argument-validation guard: valid input
             if c is None:
                 raise Inconclusive('undecided branch ' + unparse(s.test))
             return self.run(s.body if c else s.orelse)
         if isinstance(s, ast.With):
             return self.run(s.body)
+        if isinstance(s, ast.For):
+            items = self.iterate(s.iter)
+            if items is None:
+                raise Inconclusive('loop over ' + unparse(s.iter))
+            for it in items:
+                self.assign(s.target, it)
+                if self.run(s.body):
+                    return True
+            return False
         if isinstance(s, (ast.Pass, ast.Import, ast.ImportFrom)):
             return False
         raise Inconclusive('statement ' + type(s).__name__)
 
 
+def _iterate(self, it):
+    """values a for-loop ranges over, when statically known through the
+    evaluator's `lens` table (unparse(expr) -> length) or `iters` hook."""
+    hook = getattr(self, 'iters', None)
+    if hook is not None:
+        v = hook(it, self)
+        if v is not None:
+            return v
+    lens = getattr(self, 'lens', {})
+
+    def length(node):
+        k = unparse(node)
+        if k in lens:
+            return lens[k]
+        # self.c[i] -> generic row length
+        if isinstance(node, ast.Subscript):
+            k2 = unparse(node.value) + '[*]'
+            if k2 in lens:
+                return lens[k2]
+        return None
+    if isinstance(it, ast.Call) and isinstance(it.func, ast.Name):
+        if it.func.id == 'range':
+            vals = []
+            for a in it.args:
+                if isinstance(a, ast.Call) and isinstance(a.func, ast.Name) \
+                        and a.func.id == 'len':
+                    n = length(a.args[0])
+                    if n is None:
+                        return None
+                    vals.append(n)
+                else:
+                    try:
+                        r = self.ev(a)
+                    except Inconclusive:
+                        return None
+                    if not (isinstance(r, Rat) and r.is_const()):
+                        return None
+                    vals.append(int(r.n.constant() / r.d.constant()))
+            return [Rat.const(i) for i in range(*vals)]
+        if it.func.id == 'enumerate' and it.args:
+            n = length(it.args[0])
+            if n is None:
+                return None
+            base = self.key(it.args[0])
+            return [(Rat.const(i), self.read(f'{base}[{Poly.const(i).canon()}]'))
+                    for i in range(n)]
+    return None
+
+
+Ev.iterate = _iterate
+
+
 def fn_eval(P, func, args=None, choose=None, sym=None, heap=None, inline=None,
-            self_prefix='self', kwargs=None):
+            self_prefix='self', kwargs=None, lens=None, iters=None):
     """evaluate the body of func symbolically; parameters bound to args (Rat)
     or to atoms named after the parameter."""
     ev = Ev(sym=sym, P=P, func=func, choose=choose, heap=heap, inline=inline,
             self_prefix=self_prefix)
+    if lens:
+        ev.lens = lens
+    if iters:
+        ev.iters = iters
     params = func.params
     a = func.node.args
     defaults = dict(zip([x.arg for x in a.args][len(a.args) - len(a.defaults):],
